@@ -57,6 +57,7 @@ type Engine struct {
 	Prelude     string
 	FuncsEntered map[string]bool
 	SkeletonRoot string
+	CrossCheck  int // thorough tier: every CrossCheck-th symbolic obligation is re-decided by z3 4.8.12 and cvc5 (0 = off)
 	SamplePath  func(decisions []int) bool // sample completed paths for native validation replays
 	SubmatchHook func(r *Run, re *regexp.Regexp, s *Term) (value, bool)
 }
@@ -98,6 +99,7 @@ type Violation struct {
 }
 
 type Run struct {
+	Sec      []*Solver // secondary solvers (cross-check)
 	E        *Engine
 	S        *Solver
 	Harness  string
@@ -126,6 +128,7 @@ type Run struct {
 	Env     map[string]value // harness-configured environment (flags etc.)
 	depth   int
 	unknownFeas int
+	ccCount, CrossAgree, CrossUnknown int
 	permuted bool
 	pcVars  map[*Term]bool
 	pcLits  map[*Term]bool
@@ -435,6 +438,7 @@ func (r *Run) assertCond(label string, c value, detail string) {
 			r.assume(cv)
 		case Unsat:
 			r.Asserts = append(r.Asserts, AssertRec{label, "discharged"})
+			r.crossCheck(label, cv)
 			r.assume(cv)
 		default:
 			r.Asserts = append(r.Asserts, AssertRec{label, "inconclusive"})
@@ -443,6 +447,40 @@ func (r *Run) assertCond(label string, c value, detail string) {
 		}
 	default:
 		panic(fmt.Sprintf("assert on %T", c))
+	}
+}
+
+// crossCheck re-decides a discharged obligation with the secondary solvers (sampled). A secondary
+// answer "sat" contradicts the primary and makes the obligation inconclusive; unknown/timeouts of a
+// secondary are only counted.
+func (r *Run) crossCheck(label string, c *Term) {
+	if r.E.CrossCheck <= 0 || len(r.Sec) == 0 {
+		return
+	}
+	r.ccCount++
+	h := uint64(1469598103934665603) ^ uint64(r.ccCount)
+	for _, d := range r.taken {
+		h = (h ^ uint64(d+1)) * 1099511628211
+	}
+	if h%uint64(r.E.CrossCheck) != 0 {
+		return
+	}
+	for _, s := range r.Sec {
+		s.Push()
+		for _, t := range r.pc {
+			s.Assert(t)
+		}
+		s.Assert(Not(c))
+		res := s.Check()
+		s.Pop()
+		switch res {
+		case Unsat:
+			r.CrossAgree++
+		case Sat:
+			r.Inconclusive = append(r.Inconclusive, "assert "+label+": "+s.kind.Name+" answers sat where the primary solver answered unsat")
+		default:
+			r.CrossUnknown++
+		}
 	}
 }
 
@@ -969,8 +1007,8 @@ type PathResult struct {
 }
 
 // ExecPath executes harness fn once following prefix; returns the result and newly found prefixes.
-func (e *Engine) ExecPath(s *Solver, harness *ssa.Function, prefix []int, mapOrder bool) (res PathResult) {
-	r := &Run{E: e, S: s, Harness: harness.Name(), globals: map[*ssa.Global]*value{}, prefix: prefix,
+func (e *Engine) ExecPath(s *Solver, harness *ssa.Function, prefix []int, mapOrder bool, sec ...*Solver) (res PathResult) {
+	r := &Run{E: e, S: s, Sec: sec, Harness: harness.Name(), globals: map[*ssa.Global]*value{}, prefix: prefix,
 		fresh: map[string]int{}, inputSet: map[*Term]bool{}, Reached: map[string]bool{},
 		funcs: map[string]bool{}, stubsHit: map[string]bool{}, initDone: map[*ssa.Package]bool{},
 		ExploreMapOrder: mapOrder, Env: map[string]value{}, pcVars: map[*Term]bool{}, pcLits: map[*Term]bool{}}
